@@ -132,7 +132,6 @@ type Sim struct {
 	wseqs                        []*wseq
 	rem                          *remote
 	remoteChecks                 int
-	restarts                     int
 	resurrections                int
 	wseqChecks                   int
 	forceSet                     []*simTable                    // table set of the next RunTxn (nested transactions)
@@ -958,7 +957,6 @@ func (s *Sim) Finish(nontrivial bool) {
 	s.R.Count("aborts", int64(s.aborts))
 	s.R.Count("retained_wtxn_sequences_reranged", int64(s.wseqChecks))
 	s.R.Count("remote_queries_compared", int64(s.remoteChecks))
-	s.R.Count("db_restarts_with_open_iterators", int64(s.restarts))
 	s.R.Count("dead_objects_resurrected_under_the_collector", int64(s.resurrections))
 	if s.R.WantSample() {
 		tail := s.Log
